@@ -472,6 +472,7 @@ func SpecPred(p *core.Prog, r *core.Report) {
 func KeywordPred(p *core.Prog, r *core.Report) {
 	const rule = "KEYWORD-PRED"
 	ov := "(*objectValidator).Validate"
+	rng := "IsValueValidAgainstRange"
 	clauses := []predClause{
 		{ov, "TooFewProperties", []string{`^len\(.*\) < .*MinProperties$`}, nil, "minProperties: fewer keys than the minimum"},
 		{ov, "TooManyProperties", []string{`^len\(.*\) > .*MaxProperties$`}, nil, "maxProperties: more keys than the maximum"},
@@ -479,8 +480,14 @@ func KeywordPred(p *core.Prog, r *core.Report) {
 		{"(*objectValidator).validatePropertiesSchema", "Required", []string{`^!found\(`}, nil, "required: the member is absent (and not created from a default)"},
 		{"(*schemaPropsValidator).validateDependencies", "hasADependencyMsg", []string{`^!found\(`}, nil, "property dependencies: a dependent key is missing"},
 		{"(*schemaSliceValidator).Validate", "arrayDoesNotAllowAdditionalItemsMsg", []string{`^phi\(.*\) < Len\(`, `^!.*Allows$`}, nil, "additionalItems:false — more elements than the tuple"},
+		// numeric formats: each (type, format) pair is range-checked by the conversion of that very width
+		{rng, "ConvertInt32", []string{`^arg1 == "integer"$`, `^arg2 == "int32"$`}, nil, "integer/int32 values must fit 32 signed bits"},
+		{rng, "ConvertUint32", []string{`^arg1 == "integer"$`, `^arg2 == "uint32"$`}, nil, "integer/uint32 values must fit 32 unsigned bits"},
+		{rng, "ConvertUint64", []string{`^arg1 == "integer"$`, `^arg2 == "uint64"$`}, nil, "integer/uint64 values must fit 64 unsigned bits"},
+		{rng, "ConvertInt64", []string{`^arg1 == "integer"$`}, []string{`^arg2 == "int32"$`, `^arg2 == "uint32"$`, `^arg2 == "uint64"$`}, "integer with format int64 or none must fit 64 signed bits"},
+		{rng, "ConvertFloat32", []string{`^arg1 != "integer"$`, `^arg2 == "float(32)?"$`}, nil, "number/float values must fit a float32"},
 	}
 	n := checkPredClauses(p, r, rule, clauses)
 	r.Count("keyword_predicate_sites", n)
-	r.Floor("keyword_predicate_sites", 6)
+	r.Floor("keyword_predicate_sites", 11)
 }
